@@ -457,6 +457,20 @@ class Translator:
                 p, s, t = self.vex(args[0], c)
                 if t not in NUM:
                     bad('capacity of type %s' % t, line)
+                # the functions of this translator cannot report a panic here, so the argument must be one whose `usize`
+                # arithmetic cannot overflow (rs2lean_ints, adaptor fact LEN: a `len()`, and a `.count()` over the bytes of a string,
+                # are at most isize::MAX). NOT modelled: "capacity overflow" for a sum above isize::MAX (a string of more than
+                # 2^62 bytes - the string being built would have that many bytes)
+                def leaf(x):
+                    if x[0] == 'mcall' and x[2] == 'len' and not x[3]:
+                        return ints.ISIZE_MAX
+                    if x[0] == 'path' and len(x[1]) == 1 and x[1][0] in getattr(c, 'counts', ()):
+                        return ints.ISIZE_MAX
+                    return None
+                b = ints.cap_bound(args[0], leaf)
+                if b is None or b > ints.USIZE_MAX:
+                    bad('`String::with_capacity(..)`: the arithmetic of its argument can overflow `usize`, and this function has no '
+                        'way to report a panic', line)
                 return [], '([] : List Char)', 'String'
             if len(path) == 1 and path[0] not in SIGS:
                 gen, ptypes, ret = self.helper(path[0], line)
@@ -759,6 +773,9 @@ class Translator:
                     out += self.block(body, c2, ind + '  ', k)
             return out
         # a scalar or a tuple of scalars: the arms become a chain of tests
+        if scrut[0] == 'mcall' and scrut[2] == 'count' and not scrut[3]:
+            c = c.copy()
+            c.count_scrut = True          # a name bound to this value is a count of items of a string's bytes (<= its length)
         comps = scrut[1] if scrut[0] == 'tuple' else [scrut]
         pre, vals = [], []
         for x in comps:
@@ -820,6 +837,8 @@ class Translator:
                 if vid(n) == s:
                     continue                      # `(lo, hi) => …` on the scrutinee `(lo, hi)`: the same values
                 c2 = self.bind(c2, n, t, aline)
+                if getattr(c, 'count_scrut', False):
+                    c2.counts = set(getattr(c, 'counts', ())) | {n}
                 out.append(ind + 'let %s : %s := %s' % (vid(n), LEAN_T[c2.types[n]], s))
             return out + self.block(body, c2, ind, k)
         test = ' || '.join('(%s)' % x if ' && ' in x and len(tests) > 1 else x for x in tests)
